@@ -12,6 +12,7 @@ import TjdModel.Autojac.Leaves
 import TjdModel.Autojac.Liveness
 import TjdModel.Agg.Others
 import TjdModel.Agg.Simplex
+import TjdModel.Agg.Nash
 namespace Tjd.Driver
 open Tjd SExp
 
@@ -466,13 +467,38 @@ def handleRejects (req : SExp) : Option SExp := do
     | _ => none
   pure (ofBool (rejects kind shape finite))
 
+/-- C19: NashMTL schedule.  The harness supplies the solver's answers in the order the solver is invoked
+    (`oracle`); matrices are referred to by index.  Reply: per call, `(recomputed? oracle-index-or-reused-weights)`.
+    The model is run with a "solver" that reads the oracle by counting previous invocations, which is a
+    legitimate instance of `solve` as long as the harness feeds the answers in order. -/
+def handleNash (req : SExp) : Option SExp := do
+  let k ← (← req.field1? "k").nat?
+  let m ← (← req.field1? "m").nat?
+  let ops ← req.field? "ops"
+  -- weights are represented symbolically: [i] = answer of the i-th solver invocation, [] = initial ones
+  let mut st : NashState Rat := nashFresh m
+  let mut inv : Nat := 0
+  let mut out : List SExp := []
+  -- symbolic run: prvs holds [index] (as a rational) of the last solver answer, or the initial ones
+  for op in ops do
+    match op with
+    | atom "reset" => st := nashFresh m
+    | list [atom "call", _] =>
+      let idx := inv
+      let (st', a, invoked) := nashStep (fun _ _ => [((idx : Nat) : Rat)]) k st []
+      st := st'
+      if invoked then inv := inv + 1
+      out := out ++ [list [ofBool invoked, ofRats a]]
+    | _ => none
+  pure (list out)
+
 end AggD
 
 def handlers : List (String × (SExp → Option SExp)) :=
   [("typing", TypingD.handle), ("backward", AutojacD.handleBackward),
    ("mtl", AutojacD.handleMtl), ("jacobian", AutojacD.handleJacobian),
    ("history", AutojacD.handleHistory), ("transform", AutojacD.handleTransform), ("leaves", LeavesD.handle), ("liveness", LivenessD.handle), ("agg", AggD.handle),
-   ("rejects", AggD.handleRejects)]
+   ("rejects", AggD.handleRejects), ("nash", AggD.handleNash)]
 
 def handleLine (line : String) : String :=
   match SExp.parse line with
